@@ -3,6 +3,7 @@ package config
 import (
 	"errors"
 	"fmt"
+	"maps"
 	"strings"
 
 	"dario.cat/mergo"
@@ -37,10 +38,15 @@ func LoadConfigWithDefaultsFromBundle(regalBundle *bundle.Bundle, userConfig *Co
 	}
 
 	providedRuleLevels := providedConfLevels(&defaultConfig)
+	providedRuleExtras := providedConfExtras(&defaultConfig)
 
 	if err = mergo.Merge(&defaultConfig, userConfig, mergo.WithOverride); err != nil {
 		return Config{}, fmt.Errorf("failed to merge user config: %w", err)
 	}
+
+	// a rule found in the user config replaces the provided rule as a whole, including the
+	// rule-specific attributes, so any default attribute not set by the user is restored here
+	restoreProvidedExtras(&defaultConfig, providedRuleExtras)
 
 	if defaultConfig.Capabilities == nil {
 		defaultConfig.Capabilities = CapabilitiesForThisVersion()
@@ -89,6 +95,44 @@ func extractUserRuleLevels(userConfig *Config, mergedConf *Config, providedRuleL
 			}
 
 			rule.Level = selectedRuleLevel
+			mergedConf.Rules[categoryName][ruleName] = rule
+		}
+	}
+}
+
+// Copy the rule-specific attributes of each rule from the provided configuration.
+func providedConfExtras(conf *Config) map[string]map[string]ExtraAttributes {
+	ruleExtras := make(map[string]map[string]ExtraAttributes, len(conf.Rules))
+
+	for categoryName, rulesByCategory := range conf.Rules {
+		ruleExtras[categoryName] = make(map[string]ExtraAttributes, len(rulesByCategory))
+
+		for ruleName, rule := range rulesByCategory {
+			ruleExtras[categoryName][ruleName] = maps.Clone(rule.Extra)
+		}
+	}
+
+	return ruleExtras
+}
+
+func restoreProvidedExtras(mergedConf *Config, providedRuleExtras map[string]map[string]ExtraAttributes) {
+	for categoryName, extrasByRule := range providedRuleExtras {
+		for ruleName, providedExtra := range extrasByRule {
+			rule, ok := mergedConf.Rules[categoryName][ruleName]
+			if !ok {
+				continue
+			}
+
+			if rule.Extra == nil {
+				rule.Extra = make(ExtraAttributes, len(providedExtra))
+			}
+
+			for key, value := range providedExtra {
+				if _, ok := rule.Extra[key]; !ok {
+					rule.Extra[key] = value
+				}
+			}
+
 			mergedConf.Rules[categoryName][ruleName] = rule
 		}
 	}
